@@ -14,6 +14,7 @@ import struct
 import unittest.mock
 
 from common import hx, setup_repo_import
+from lib import doipsys as SYS
 from vloop import MemWriter, Stall, vrun
 
 ID = "C06"
@@ -593,6 +594,361 @@ def gen_scripts(ctx):
 
 
 # --------------------------------------------------------------------------------------------------------------
+# whole executions (Model/DoipSys.lean): timed scripts, see lib/doipsys.py
+
+W1 = "22f190"
+W2 = "3e00"
+SYS_CLASSES = ["ap", "a1", "an", "ax", "ao", "dT", "dO", "al", "un"]
+SYS_CLASSES_SMALL = ["ap", "a1", "ax", "dT", "al"]
+SYS_SLOTS = [5, 105, 405, 1005, 2205]
+SYS_PROGRAMS = {
+    # (think, call ...)
+    "W;R": [[10, "write", W1, None], [40, "read", 300]],
+    "Wshort;W;R": [[10, "write", W1, 480], [40, "write", W2, None], [40, "read", 300]],
+    "R;W;R": [[10, "read", 300], [40, "write", W1, None], [40, "read", 300]],
+    "W;W;R;R": [[10, "write", W1, None], [40, "write", W2, None], [40, "read", 300], [40, "read", 300]],
+    "W;Rinf;W": [[10, "write", W1, None], [40, "read", None], [40, "write", W2, 3000]],
+    "W;late W;R": [[10, "write", W1, None], [2100, "write", W2, None], [40, "read", 300]],
+}
+
+
+def sys_frame(cls, cfg, n):
+    src, tgt, _ = cfg
+    if cls == "ap":
+        return ["ackp", tgt, src, ""]
+    if cls == "a1":
+        return ["ackp", tgt, src, W1]
+    if cls == "an":
+        return ["ackn", tgt, src, 6, ""]
+    if cls == "ax":
+        return ["ackn", tgt, src, 3, ""]
+    if cls == "ao":
+        return ["ackp", (tgt + 1) & 0xFFFF, src, ""]
+    if cls == "dT":
+        return ["diag", tgt, src, bytes([0x62, n & 0xFF]).hex()]
+    if cls == "dO":
+        return ["diag", (tgt + 1) & 0xFFFF, src, bytes([0x7F, n & 0xFF]).hex()]
+    if cls == "al":
+        return ["alive", ""]
+    if cls == "un":
+        return ["unk", 0x4001, "00"]
+    raise ValueError(cls)
+
+
+def _assignments(n, k):
+    """non-decreasing maps of n frames to k slots"""
+    return itertools.combinations_with_replacement(range(k), n)
+
+
+def sys_script(cfg, prog, placed, drain=1):
+    """placed: [(t, [frame descriptors])] with increasing t; frames of one instant travel in one segment"""
+    return {"cfg": list(cfg), "drain": drain, "cl": [list(e) for e in prog],
+            "gw": [[t, b"".join(enc(f, cfg[2]) for f in fr).hex()] for t, fr in placed if fr]}
+
+
+def gen_sys_exhaustive(ctx):
+    cfg = CFGS[0]
+    full_len = ctx.pick(2, 3)
+    small_len = ctx.pick(3, 4)
+    n_scripts = 0
+    for pname, prog in SYS_PROGRAMS.items():
+        plans = [(SYS_CLASSES, n) for n in range(0, full_len + 1)]
+        if pname in ("Wshort;W;R", "W;W;R;R") or not ctx.quick:
+            plans += [(SYS_CLASSES_SMALL, n) for n in range(full_len + 1, small_len + 1)]
+        for alphabet, n in plans:
+            for seq in itertools.product(alphabet, repeat=n):
+                frames = [sys_frame(c, cfg, i + 1) for i, c in enumerate(seq)]
+                for asg in _assignments(n, len(SYS_SLOTS)):
+                    placed = [(SYS_SLOTS[k], [f for f, a in zip(frames, asg) if a == k]) for k in range(len(SYS_SLOTS))]
+                    n_scripts += 1
+                    yield (f"sys-exhaustive:{pname}", sys_script(cfg, prog, placed))
+    ctx.exhaustive_parts.append(
+        f"whole executions: client programs {list(SYS_PROGRAMS)} x all gateway frame sequences of length <= {full_len} over "
+        f"{SYS_CLASSES} (length <= {small_len} over {SYS_CLASSES_SMALL} for the multi-write programs) x every non-decreasing "
+        f"placement of the frames into the instants {SYS_SLOTS} ms, frames of one instant in one TCP segment ({n_scripts} scripts)")
+
+
+def gen_sys_late_acks(ctx):
+    """acknowledgements around the acknowledgement deadline and around the caller's timeout, followed by another write:
+    an acknowledgement arriving after the 2 s deadline finds the connection closed; one arriving after the caller gave
+    up stays queued and is what the next write sees first"""
+    cfg = CFGS[0]
+    for d in (-3, -1, 1, 7, 300):
+        for first_tmo in (None, 480, 1500, 2600):
+            for ack in ("ap", "a1", "an", "ax"):
+                for pre in ((), ("dT",), ("al",), ("dO", "al")):
+                    start = 10
+                    dl = start + (2000 if first_tmo is None or first_tmo > 2000 else first_tmo)
+                    prog = [[10, "write", W1, first_tmo], [50, "write", W2, None], [50, "read", 300], [50, "write", W1, 2500]]
+                    placed = [(105, [sys_frame(c, cfg, i + 1) for i, c in enumerate(pre)]),
+                              (dl + d, [sys_frame(ack, cfg, 9)]),
+                              (dl + d + 400, [sys_frame("ap", cfg, 9), sys_frame("dT", cfg, 7)])]
+                    yield ("sys-late-ack", sys_script(cfg, prog, placed))
+
+
+def gen_sys_random(ctx):
+    rng = ctx.rng
+    counter = [0]
+    bad = [["raw", 2, 2, 0x8001, 5, "001d0e0062"], ["raw", 2, 0xFD, 0x8001, 3, "001d0e"],
+           ["raw", 2, 0xFD, 0x8002, 5, "001d0e0001"], ["raw", 2, 0xFD, 0x0000, 2, "0102"]]
+    for _ in range(ctx.pick(2500, 40000)):
+        cfg = rng.choice(CFGS) if rng.random() < 0.3 else CFGS[0]
+        ver = cfg[2]
+        counter[0] = 0
+        # client program: 2..6 calls
+        cl = []
+        if rng.random() < 0.08:
+            cl.append([rng.choice([1, 10]), "activate", rng.randrange(256), rng.choice([None, 500, 3000])])
+        for _ in range(rng.randint(2, 6)):
+            think = rng.choice([1, 10, 10, 40, 40, 200, 700, 2100])
+            r = rng.random()
+            if r < 0.5:
+                cl.append([think, "write", rng.choice([W1, W1, W2, W2, "", "22f19000"]),
+                           rng.choice([None, None, None, 300, 480, 1500, 2500, 5000])])
+            elif r < 0.95:
+                cl.append([think, "read", rng.choice([None, 100, 300, 300, 1000, 3000])])
+            else:
+                cl.append([think, "close"])
+        # gateway program: 0..8 frames at generated times, segmentation: coalesced, whole, or cut into pieces
+        n = rng.randint(0, 8)
+        span = rng.choice([600, 2500, 2500, 6000])
+        times = sorted(rng.randrange(1, span) for _ in range(n))
+        frames = []
+        for _ in range(n):
+            r = rng.random()
+            if r < 0.03:
+                frames.append(rng.choice(bad))
+            elif r < 0.06:
+                frames.append(["rar", cfg[0], cfg[1], rng.choice([0x10, 0x10, 0x06, 0x00])])
+            else:
+                frames.append(mk_frame(rng.choice(CLASSES[:6]), rng, cfg, counter))
+        gw = []
+        t_prev = 0
+        pending = b""
+        for i, (t, f) in enumerate(zip(times, frames)):
+            t = max(t, t_prev + 1)
+            b = pending + enc(f, ver)
+            pending = b""
+            nxt = times[i + 1] if i + 1 < n else t + 1000
+            mode = rng.random()
+            if mode < 0.15 and i + 1 < n:
+                pending = b  # travels together with the next frame
+                continue
+            if mode < 0.45 and len(b) > 1 and nxt - t > 4:
+                ks = sorted(rng.sample(range(1, len(b)), min(len(b) - 1, rng.randint(1, 3))))
+                parts = [b[x:y] for x, y in zip([0] + ks, ks + [len(b)])]
+                if rng.random() < 0.2:
+                    pending = parts.pop()  # an incomplete tail completed by the next segment
+                for j, part in enumerate(parts):
+                    tj = min(t + j * rng.choice([1, 3, 40]), nxt - len(parts) + j)
+                    tj = max(tj, t_prev + 1)
+                    gw.append([tj, part.hex()])
+                    t_prev = tj
+            else:
+                gw.append([t, b.hex()])
+                t_prev = t
+        if pending:
+            gw.append([t_prev + 1, pending.hex()])
+            t_prev += 1
+        if rng.random() < 0.06:
+            gw.append([t_prev + rng.choice([1, 50, 900]), "eof"])
+        yield ("sys-random" + ("" if rng.random() < 0.7 else ":nodrain"),
+               {"cfg": list(cfg), "drain": 1, "cl": cl, "gw": gw})
+
+
+def gen_sys_scripts(ctx):
+    yield from gen_sys_exhaustive(ctx)
+    yield from gen_sys_late_acks(ctx)
+    for label, s in gen_sys_random(ctx):
+        if label.endswith(":nodrain"):
+            s["drain"] = 0
+        yield (label, s)
+    # the exhaustive short scripts once more on the schedule of a plain socket (drain() does not suspend)
+    cfg = CFGS[0]
+    for pname in ("W;R", "R;W;R"):
+        for n in range(0, 3):
+            for seq in itertools.product(["ap", "dT", "dO", "al"], repeat=n):
+                frames = [sys_frame(c, cfg, i + 1) for i, c in enumerate(seq)]
+                for asg in _assignments(n, 3):
+                    placed = [(SYS_SLOTS[k], [f for f, a in zip(frames, asg) if a == k]) for k in range(3)]
+                    yield (f"sys-exhaustive-nodrain:{pname}", sys_script(cfg, SYS_PROGRAMS[pname], placed, drain=0))
+
+
+def _stream_kinds(script):
+    """per gateway segment: the kinds of the frames it completes (by a plain header walk)"""
+    cfg = script["cfg"]
+    buf = b""
+    out = []
+    for t, what in script["gw"]:
+        if what == "eof":
+            out.append(f"{t}:eof")
+            continue
+        buf += bytes.fromhex(what)
+        kinds = []
+        while len(buf) >= 8:
+            v, iv, pt, ln = struct.unpack("!BBHL", buf[:8])
+            if v != iv ^ 0xFF:
+                kinds.append("badver")
+                buf = buf[8:]
+                continue
+            if len(buf) < 8 + ln:
+                break
+            pl, buf = buf[8:8 + ln], buf[8 + ln:]
+            own = len(pl) >= 4 and struct.unpack("!HH", pl[:4]) == (cfg[1], cfg[0])
+            if pt == 0x8001:
+                kinds.append("diagT" if own else "diagO")
+            elif pt == 0x8002:
+                kinds.append(("ackp" if own else "ackpO") + ("" if len(pl) <= 5 else "+echo"))
+            elif pt == 0x8003:
+                kinds.append(("ackn" if own else "acknO") + (str(pl[4]) if len(pl) > 4 else ""))
+            elif pt == 0x0007:
+                kinds.append("alive")
+            elif pt == 0x0006:
+                kinds.append("rar")
+            elif pt == 0x0000:
+                kinds.append("hnack")
+            else:
+                kinds.append(f"unk{pt:04x}")
+        out.append(f"{t}:" + ("+".join(kinds) if kinds else "part"))
+    return out
+
+
+def shape_sys(script):
+    cl = []
+    for e in script["cl"]:
+        if e[1] == "write":
+            cl.append(f"W({e[2] or '-'},{e[3]})@{e[0]}")
+        elif e[1] == "read":
+            cl.append(f"R({e[2]})@{e[0]}")
+        elif e[1] == "activate":
+            cl.append(f"A({e[2]},{e[3]})@{e[0]}")
+        else:
+            cl.append(f"close@{e[0]}")
+    return ";".join(cl) + "|" + ",".join(_stream_kinds(script)) + ("" if script.get("drain", 1) else "|nodrain")
+
+
+def prepare_sys(ctx, labelled):
+    """run the model; a script in which a gateway segment coincides with a client start or a timer (the order of the
+    real loop is then not determined) gets its gateway program shifted by 1 ms from that instant on, at most 4 times"""
+    ready = [None] * len(labelled)
+    todo = list(range(len(labelled)))
+    scripts = [s for _, s in labelled]
+    for _round in range(5):
+        if not todo:
+            break
+        ms = SYS.run_model_batch(ctx, [scripts[i] for i in todo])
+        again = []
+        for i, m in zip(todo, ms):
+            if m["tie"]:
+                scripts[i] = dict(scripts[i], gw=[[t + 1 if t >= m["tie"] else t, w] for t, w in scripts[i]["gw"]])
+                again.append(i)
+            else:
+                ready[i] = m
+        todo = again
+    ctx.notes["sys_dropped_ties"] = ctx.notes.get("sys_dropped_ties", 0) + len(todo)
+    return [(labelled[i][0], scripts[i], ready[i]) for i in range(len(labelled)) if ready[i] is not None]
+
+
+def _sys_candidates(script):
+    cl, gw = script["cl"], script["gw"]
+    for i in reversed(range(len(cl))):
+        yield dict(script, cl=cl[:i] + cl[i + 1:])
+    for i in reversed(range(len(gw))):
+        yield dict(script, gw=gw[:i] + gw[i + 1:])
+    for i, e in enumerate(cl):
+        if e[0] > 10:
+            yield dict(script, cl=cl[:i] + [[10] + list(e[1:])] + cl[i + 1:])
+
+
+def sys_verdict(ctx, script):
+    m = SYS.run_model_batch(ctx, [script])[0]
+    if m["tie"]:
+        return None, None, None
+    impl = SYS.run_impl(script)
+    mv = SYS.model_view(m)
+    j = SYS.judge(script, impl, mv)
+    if j is None:
+        facts = SYS.whole_execution_facts(script, impl)
+        if facts:
+            j = (facts[0][0], True, facts[0][1])
+    return j, impl, mv
+
+
+def shrink_sys(ctx, script, aspect, budget=60):
+    cur = script
+    improved = True
+    while improved and budget > 0:
+        improved = False
+        for cand in _sys_candidates(cur):
+            budget -= 1
+            if budget <= 0:
+                break
+            j, _, _ = sys_verdict(ctx, cand)
+            if j is not None and j[0] == aspect:
+                cur = cand
+                improved = True
+                break
+    return cur
+
+
+def _sys_worker(scripts):
+    setup_repo_import()
+    return [SYS.run_impl(s) for s in scripts]
+
+
+def run_sys(ctx, pool):
+    seen = {}
+    total = 0
+    labelled = list(gen_sys_scripts(ctx))
+    prepared = prepare_sys(ctx, labelled)
+    scripts = [s for _, s, _ in prepared]
+    if pool is not None and len(scripts) > 2000:
+        parts = pool.map(_sys_worker, _chunks(scripts, 64))
+        impls = [r for p in parts for r in p]
+    else:
+        impls = [SYS.run_impl(s) for s in scripts]
+    reads_total = alive_total = 0
+    for (label, s, m), impl in zip(prepared, impls):
+        ctx.ev()
+        ctx.kind(label)
+        ctx.kind(f"sys-calls:{len(s['cl'])}", f"sys-segments:{min(len(s['gw']), 9)}")
+        if s["gw"]:
+            ctx.nontrivial("sys:" + json.dumps(s, sort_keys=True))
+        for d in impl["done"]:
+            ctx.kind("sys-result:" + ":".join(d.split(":")[1:3]))
+        reads_total += len(SYS.reads_of(impl["done"]))
+        alive_total += impl["tr"].count("R")
+        mv = SYS.model_view(m)
+        j = SYS.judge(s, impl, mv)
+        if j is None:
+            facts = SYS.whole_execution_facts(s, impl)
+            if facts:
+                j = (facts[0][0], True, facts[0][1])
+        if j is not None:
+            lst = seen.setdefault(j[0], [0, []])
+            lst[0] += 1
+            lst[1].append((s, j))
+            lst[1].sort(key=lambda c: (len(json.dumps(c[0])), json.dumps(c[0], sort_keys=True)))
+            del lst[1][3:]
+        total += 1
+    ctx.traces_validated += total
+    if prepared:
+        k = min(len(prepared) - 1, 4000)
+        ctx.sample({"label": prepared[k][0], "script": shape_sys(prepared[k][1]), "impl": impls[k]["done"]})
+    for aspect, (count, cases) in seen.items():
+        for s, j in cases[:3]:
+            small = shrink_sys(ctx, s, aspect)
+            j2, ia, mb = sys_verdict(ctx, small)
+            j2 = j2 or j
+            ctx.disagree(f"doipsys:{aspect}:{shape_sys(small)}", f"{j2[2]} [{count} whole executions differ in this aspect]",
+                         small, impl=ia, model=mb, spec_violated=bool(j2[1]),
+                         site="gallia.transports.doip.DoIPConnection / DoIPTransport")
+    ctx.notes["sys_scripts"] = total
+    ctx.notes["sys_reads_delivered"] = reads_total
+    ctx.notes["sys_alive_replies"] = alive_total
+
+
+# --------------------------------------------------------------------------------------------------------------
 # shrinking
 
 def _candidates(script):
@@ -702,6 +1058,7 @@ def run(ctx):
                 batch = []
         if batch:
             process(batch)
+        run_sys(ctx, pool)
     finally:
         if pool is not None:
             pool.terminate()
@@ -723,6 +1080,8 @@ def run(ctx):
 def replay(ctx, case):
     setup_repo_import()
     script = case.get("case", case)
+    if "gw" in script:
+        return replay_sys(ctx, script)
     impl = run_impl(script)
     model = run_model_batch(ctx, [script])[0]
     print("script:", shape(script))
@@ -731,6 +1090,24 @@ def replay(ctx, case):
         print("   impl :", impl[i] if i < len(impl) else "-")
         print("   model:", model[i] if i < len(model) else "-")
     j = judge(script, impl, model)
+    print("verdict:", j)
+    return j is not None
+
+
+def replay_sys(ctx, script):
+    m = SYS.run_model_batch(ctx, [script], verbose=True)[0]
+    impl = SYS.run_impl(script)
+    mv = SYS.model_view(m)
+    print("script:", shape_sys(script))
+    print("events:", m.get("ops"))
+    for k in ("done", "out", "tr", "q", "closed", "client"):
+        print(f"   {k:7} impl : {impl[k]}")
+        print(f"   {k:7} model: {mv[k]}")
+    j = SYS.judge(script, impl, mv)
+    if j is None:
+        facts = SYS.whole_execution_facts(script, impl)
+        if facts:
+            j = (facts[0][0], True, facts[0][1])
     print("verdict:", j)
     return j is not None
 
